@@ -16,6 +16,7 @@
 import YashModel.Common.Proto
 import YashModel.Variable.Model
 import YashModel.Variable.Spec
+import YashModel.Variable.Script
 open YashModel YashModel.Variable YashModel.Proto
 
 def parseScope : String → Option Scope
@@ -102,7 +103,7 @@ def observeM (s : VariableSet) (r : Res) (names : List Name) : String :=
 def observeS (X : SSet) (r : Res) (names : List Name) : String :=
   observeWith r names (lookup X) X.getScoped (fun sc => X.iter sc names) (X.env names) X.positionalParams
 
-def runLine (line : String) : String :=
+def runHistory (line : String) : String :=
   let parts := (splitTrim line ";").filter (· ≠ "")
   match parts.mapM parseOp with
   | none => "bad-case\t-"
@@ -117,5 +118,38 @@ def runLine (line : String) : String :=
         go s' X' rest (observeM s' r names :: om) (observeS X' q names :: os)
     let (om, os) := go VariableSet.new SSet.new ops [] []
     " | ".intercalate om ++ "\t=" ++ " | ".intercalate os
+
+/-! ### script cases: `sh f: S , S ; g: S ; main: S , S` (see `Script.lean`) -/
+
+def parseStmt (t : String) : Option Stmt :=
+  match words t with
+  | [] => none
+  | k :: ws =>
+    let pre := ws.takeWhile (· ≠ "--")
+    let post := (ws.dropWhile (· ≠ "--")).drop 1
+    some ⟨k, pre, post⟩
+
+def parsePart (t : String) : Option (String × List Stmt) :=
+  match t.splitOn ":" with
+  | [name, body] => do
+    let stmts ← ((splitTrim body ",").filter (· ≠ "")).mapM parseStmt
+    pure (name.trimAscii.toString, stmts)
+  | _ => none
+
+def runScriptWith {σ} (I : Iface σ) (s0 : σ) (parts : List (String × List Stmt)) : String :=
+  match parts.lookup "main" with
+  | none => "bad-case"
+  | some main =>
+    let (_, out, aborted) := execStmts I parts 10000 s0 main []
+    " | ".intercalate (out.reverse ++ [if aborted then "abort" else "@END"])
+
+def runScript (body : String) : String :=
+  match ((splitTrim body ";").filter (· ≠ "")).mapM parsePart with
+  | none => "bad-case\t-"
+  | some parts =>
+    runScriptWith ifaceM VariableSet.new parts ++ "\t=" ++ runScriptWith ifaceS SSet.new parts
+
+def runLine (line : String) : String :=
+  if line.startsWith "sh " then runScript (line.drop 3).toString else runHistory line
 
 def main : IO Unit := mainLoop runLine
